@@ -107,6 +107,8 @@ def monitor(c):
 
 
 def run(ctx, out):
+    import families as _fam2
+    out.evaluations += _fam2.scalar_subclass_family(out, PROP)
     import families, random as _random
     out.evaluations += families.noninit_tuple_family(out, PROP, _random.Random(ctx['seed']))
     out.rule = ('EXHAUSTIVE: 23 targets (7 scalars, None, list, variadic tuple, fixed tuple, set, mapping, struct dataclass, tuple-layout '
